@@ -2,24 +2,20 @@
    Python's int(str[, 16]) reachable with CHARSET characters, hex printing/parsing, UTF-8
    encoding of one code point, split/join.  Definitions only. *)
 From NDN Require Import Base.Prelude.
-From Coq Require Import DecimalN DecimalFacts.
 Local Open Scope N_scope.
 
 Definition str := list N.   (* code points *)
 
 (* ---- decimal ---------------------------------------------------------------------------- *)
-Fixpoint uint_to_str (d : Decimal.uint) : str :=
-  match d with
-  | Decimal.Nil => []
-  | Decimal.D0 r => 48 :: uint_to_str r | Decimal.D1 r => 49 :: uint_to_str r
-  | Decimal.D2 r => 50 :: uint_to_str r | Decimal.D3 r => 51 :: uint_to_str r
-  | Decimal.D4 r => 52 :: uint_to_str r | Decimal.D5 r => 53 :: uint_to_str r
-  | Decimal.D6 r => 54 :: uint_to_str r | Decimal.D7 r => 55 :: uint_to_str r
-  | Decimal.D8 r => 56 :: uint_to_str r | Decimal.D9 r => 57 :: uint_to_str r
+(* f"{n}": decimal digits, most significant first, no leading zeros ("0" for 0).
+   Fuel = number of binary digits, which bounds the number of decimal digits. *)
+Fixpoint dec_aux (fuel : nat) (n : N) (acc : str) : str :=
+  match fuel with
+  | O => acc
+  | S f => let acc' := (48 + n mod 10) :: acc in
+           if n <? 10 then acc' else dec_aux f (n / 10) acc'
   end.
-
-(* f"{n}" *)
-Definition dec_print (n : N) : str := uint_to_str (N.to_uint n).
+Definition dec_print (n : N) : str := dec_aux (S (N.to_nat (N.log2 n))) n [].
 
 Definition is_digit (c : N) : bool := (48 <=? c) && (c <=? 57).
 
